@@ -374,7 +374,7 @@ class Evaluator:
             e2 = dict(env)
             for t in st.targets:
                 if self.effects_mode and ctx.depth == 0:
-                    self._fx(e2, ("store", self._target_term(t, env, ctx), "del", None))
+                    self._fx(e2, ("store", self._target_term(t, env, ctx), "del", None, None))
             return [(conds, e2, None)]
         if isinstance(st, ast.AugAssign):
             fake = ast.BinOp(left=_load(st.target), op=st.op, right=st.value)
@@ -679,7 +679,14 @@ class Evaluator:
                     da = self.ev(stmt.value, env, ctx)
                     if len(da) == 1 and not da[0][0]:
                         delta = da[0][1]
-                self._fx(env, ("store", self._target_term(t, env, ctx), how, v if delta is None else delta))
+                cur = None
+                try:
+                    ca = self.ev(_load(t), env, ctx)
+                    if len(ca) == 1 and not ca[0][0]:
+                        cur = ca[0][1]
+                except Unreadable:
+                    cur = None
+                self._fx(env, ("store", self._target_term(t, env, ctx), how, v if delta is None else delta, cur))
             # store into an object: remember by source text (used for simple local state like `result.x = ...`)
             env["@" + ast.unparse(t)] = v
         else:
